@@ -63,6 +63,7 @@ type ExScenario struct {
 	Op     string // "request", "renew", "release", "inform", "solicit", "request6", "rapid"
 	P1, P2 []RK   // replies to the first / second distinct client message
 	Bound  int
+	Fault  bool // renew: a first attempt whose transmission fails (injected write error) precedes the exchange under test
 }
 
 func (s *ExScenario) String() string {
@@ -73,7 +74,11 @@ func (s *ExScenario) String() string {
 		}
 		return "[" + strings.Join(o, " ") + "]"
 	}
-	return fmt.Sprintf("%s op=%s phase1=%s phase2=%s", s.Name, s.Op, f(s.P1), f(s.P2))
+	flt := ""
+	if s.Fault {
+		flt = " (after an attempt whose transmission failed)"
+	}
+	return fmt.Sprintf("%s op=%s%s phase1=%s phase2=%s", s.Name, s.Op, flt, f(s.P1), f(s.P2))
 }
 
 // reply metadata the oracle needs
@@ -325,6 +330,14 @@ func (s *ExScenario) body(out **exRun) func() {
 				}
 			case "renew":
 				l0 := canonicalLease()
+				if s.Fault {
+					// a transient write error on the first attempt must not spoil the transaction id of the lease
+					conn.FailWrite = map[int]bool{0: true}
+					if _, err0 := cl.Renew(ctx, l0); err0 == nil {
+						run.err = errors.New("the renewal whose transmission failed reported success")
+						break
+					}
+				}
 				lease, err := cl.Renew(ctx, l0)
 				run.err = err
 				if lease != nil {
@@ -769,6 +782,7 @@ func c13Scenarios(tier string) []Scenario {
 	}
 	for _, p1 := range rkSeqs(a2, 2) {
 		add(&ExScenario{Op: "inform", P1: p1})
+		add(&ExScenario{Op: "renew", P1: p1, Fault: true})
 	}
 	add(&ExScenario{Op: "release"})
 	for _, p1 := range rkSeqs([]RK{RAck1, RNak1, RAck2, RGarbage}, 2) {
